@@ -14,12 +14,20 @@ From FV.C07.gen Require Import WriteCfg.
 Theorem C07_cfg_ok : cfg_ok WriteCfg.cfg_proved = true.
 Proof. vm_compute. reflexivity. Qed.
 
-(* every output format of FEMData.write is covered by a translated program;
-   "<other>" is the program of any file_type the dispatch does not know *)
-Theorem C07_formats_covered :
-  map fst WriteCfg.cfg =
+(* every output format of FEMData.write has a translated program (formats the
+   code may gain later are translated and checked as well); "<other>" is the
+   program of any file_type the dispatch does not know *)
+Definition known_formats : list string :=
   ["fistr"; "ucd"; "stl"; "obj"; "polyvtk"; "vtu"; "vtp"; "vtk"; "<other>"]%string.
-Proof. vm_compute. reflexivity. Qed.
+
+Theorem C07_formats_covered :
+  forall ft, In ft known_formats -> In ft (map fst WriteCfg.cfg).
+Proof.
+  assert (H : forallb (fun ft => existsb (String.eqb ft) (map fst WriteCfg.cfg)) known_formats = true)
+    by (vm_compute; reflexivity).
+  intros ft Hin. rewrite forallb_forall in H. specialize (H ft Hin).
+  apply existsb_exists in H. destruct H as [x [Hx He]]. apply String.eqb_eq in He. subst. exact Hx.
+Qed.
 
 (* a format is left out of cfg_proved only if it is listed as an open finding *)
 Theorem C07_only_open_findings_excluded :
